@@ -1,8 +1,10 @@
 #!/usr/bin/env python3
-"""nfa2lean.py — translator from the Rust text of daachorse's pattern-insertion code
-(`src/nfa_builder.rs`: `NfaBuilderState::default`, `NfaBuilder::{new, add, is_registered, child_id}`)
-to Lean 4 definitions (`lean/Daac/Gen/Nfa.lean`).  `Daac/Proofs/TieN.lean` proves that the generated
-`add` refines the hand-written model `NfaAcc.add` / `Trie.insert` (Daac/Model/Trie.lean).
+"""nfa2lean.py — translator from the Rust text of daachorse's sparse-NFA builder
+(`src/nfa_builder.rs`: `NfaBuilderState::default`, `NfaBuilder::{new, add, is_registered, child_id,
+build_fails, build_fails_leftmost, build_outputs}`) to Lean 4 definitions (`lean/Daac/Gen/Nfa.lean`).
+`Daac/Proofs/TieN.lean` proves that the generated `add` refines the hand-written model `NfaAcc.add` /
+`Trie.insert` (Daac/Model/Trie.lean); `Daac/Proofs/TieF.lean` (+ TieFBase, TieFOut) that the generated
+`build_fails` / `build_outputs` refine `buildFailMap` / `buildOutAcc` (Daac/Model/Nfa.lean).
 
 Every run re-reads the repository's current source text, parses the function bodies with the Rust
 parser of tools/rs2lean.py (`P(...).block()` on the body tokens; the only extension is the list form
@@ -39,6 +41,27 @@ Translation rules (trusted base, with lean/Daac/Gen/PreludeNfa.lean):
    the body of `MatchKind::is_leftmost_first` (src/lib.rs, re-read and checked to be `self == Self::X`)
    compares with (`Gen.kindBytes` of lean/Daac/Gen/Consts.lean).
 
+ * (fail / output passes) `&self` methods whose body contains `borrow_mut` write through `RefCell`: they
+   return the new `self` next to their result like `&mut self` methods.  `let s = &[mut] self.states[i]
+   .borrow[_mut]();` makes `s` an alias of the whole cell (`s.f` reads / writes `self.states[i].f` of the
+   CURRENT array; an alias alive across a loop may only depend on immutable variables).  The dynamic
+   borrow check of `RefCell` (BorrowError / BorrowMutError panics) is NOT modelled;
+ * loops without `return` are translated in RETURNING mode: the loop function returns the variables the
+   body assigns (`x = ..`, `x += ..`, `x.push(..)`; `self` if the body writes a place), the code after
+   the loop is emitted once at the call site.  `for &x in <slice / Vec<u32> / edges.values()>` and
+   `for (&c, &x) in &<edges place>` (the association list read at loop entry) are structural recursions;
+   `while c { .. }` and `loop { .. break v; .. }` take FUEL `self.states.size + 1` evaluated at loop entry
+   and return `BuildErr.panic "fuel"` on exhaustion (TieF proves it is never exhausted); a `loop` with a
+   value returns (break value, assigned variables) and must not write `self`; plain `break` /
+   `continue` / nested loops inside a value `loop` are rejected;
+ * an `if` statement that falls through on every path and is followed by more code is translated once
+   (its branches return the variables they change) instead of duplicating the continuation;
+ * `debug_assert_ne!(a, b)` is CHECKED (debug-profile semantics): failure = `BuildErr.panic "debug_assert"`;
+   `x.unwrap()` on `u32::try_from(..)`: `none` = `BuildErr.panic "unwrap"`; `v[i]` on a local vector /
+   slice: `Rs.index`; `Vec::with_capacity(n)`: the empty array; `NonZeroU32::get`: identity;
+   `tuple.0` / `.1`: projections; `Output::new(v, l, p)`: the record (checked against src/lib.rs: the
+   body must be `Self { value, length, parent }`).
+
 Usage: nfa2lean.py [repo_root] [out_dir]
 """
 import os, re, sys
@@ -68,6 +91,10 @@ class PN(P):
                 elif sub.peek()[0] != 'eof':
                     raise TErr(f'{self.where}: only `vec![a, b, ..]` is supported here')
             return ('veclist', elems)
+        if self.peek() == ('id', 'break'):
+            self.next()
+            if self.at(';') or self.at('}'): return ('break',)
+            return ('breakv', self.expr())
         return super().primary(nostruct)
 
 
@@ -93,6 +120,9 @@ def map_type(ty, where):
         'Vec<Output<V>>': ('Array (Rs.Output V)', ('vec', 'output')),
         'BTreeSet<Vec<L>>': ('Rs.SetL', 'set'),
         'Result<()>': ('Unit', 'result_unit'),
+        '()': ('Unit', 'unit'),
+        'Vec<u32>': ('Array Nat', ('vec', 'nat')),
+        '[u32]': ('Array Nat', ('vec', 'nat')),
         'Self': (None, 'Self'),
     }
     if t not in table:
@@ -115,6 +145,10 @@ class Tr:
         if self.ret_tag == 'Self':
             self.ret_lean = f'{self.struct} V'
         self.fallible = f['name'] in unit.fallible
+        # `&self` methods that write through `RefCell::borrow_mut` return the new `self` like `&mut self` ones
+        self.threads = self.selfkind == 'mut' or (self.selfkind == 'ref' and any(t == ('id', 'borrow_mut') for t in f['body_toks']))
+        self.loopctx = []        # enclosing loops translated in returning mode
+        self.refine = {}         # element kinds of `Vec::with_capacity` vectors, learnt at `push`
 
     def err(self, msg):
         raise TErr(f'{self.where}: {msg}')
@@ -127,17 +161,18 @@ class Tr:
     def ret_type(self):
         if not self.fallible:
             return self.ret_lean
-        if self.selfkind == 'mut':
+        if self.threads:
             return f'Except BuildErr ({self.ret_lean} × {self.struct} V)'
         return f'Except BuildErr {paren(self.ret_lean)}'
 
     def pack(self, v):
         if not self.fallible: return v
-        if self.selfkind == 'mut': return f'.ok ({v}, self)'
+        if self.threads: return f'.ok ({v}, self)'
         return f'.ok {v}'
 
     def tx_return(self, e, env):
         """`return e` / the tail expression of the function body."""
+        if self.loopctx: self.err('`return` inside a loop translated in returning mode')
         if self.ret_tag == 'result_unit':
             if e is not None and e[0] == 'call' and e[1] == ('path', ['Err']) and len(e[2]) == 1:
                 t, ty = self.px(e[2][0], env)
@@ -159,6 +194,10 @@ class Tr:
         """('selffield', f, tag) | ('statefield', ix_expr, f, tag, mutable) | None"""
         if e[0] == 'path' and len(e[1]) == 1 and e[1][0] in env and env[e[1][0]][0] == 'alias':
             return env[e[1][0]][1]
+        if e[0] == 'field' and e[1][0] == 'path' and len(e[1][1]) == 1 and e[1][1][0] in env and env[e[1][1][0]][0] == 'alias' \
+                and env[e[1][1][0]][1][0] == 'statecell':
+            cell = env[e[1][1][0]][1]
+            return ('statefield', cell[1], e[2], self.u.field_tag('NfaBuilderState', e[2]), cell[2])
         if e[0] == 'field' and e[1] == ('path', ['self']):
             if self.selfkind not in ('ref', 'mut'): self.err('`self` outside a method')
             return ('selffield', e[2], self.u.field_tag(self.struct, e[2]))
@@ -170,25 +209,41 @@ class Tr:
             self.err(f'`.{e[1][2]}()` on something other than `self.states[..]`')
         return None
 
+    def as_cell(self, e):
+        """`self.states[ix].borrow()` / `.borrow_mut()` -> ('statecell', ix_expr, mutable) | None"""
+        if e[0] == 'mcall' and e[2] in ('borrow', 'borrow_mut') and e[3] == []:
+            cell = e[1]
+            if cell[0] == 'index' and cell[1] == ('field', ('path', ['self']), 'states'):
+                if self.u.field_tag(self.struct, 'states') != 'states': self.err('`states` changed type')
+                return ('statecell', cell[2], e[2] == 'borrow_mut')
+        return None
+
     def place_read(self, pl, env, k):
         if pl[0] == 'selffield':
             return k(f'self.{lname(pl[1])}', pl[2])
-        ix, _ = self.px_ty(pl[1], env, 'nat')
-        s = self.fresh('s')
-        return self.bind(f'Rs.index self.states {ix}', s, k(f'{s}.{lname(pl[2])}', pl[3]))
+        if pl[0] == 'statecell': self.err('a whole state cell is used as a value')
+        def ki(ix, ty):
+            if ty != 'nat': self.err('index of a non-integer kind')
+            s = self.fresh('s')
+            return self.bind(f'Rs.index self.states {ix}', s, k(f'{s}.{lname(pl[2])}', pl[3]))
+        return self.tx(pl[1], env, ki)
 
     def place_update(self, pl, env, mk, k):
         """mk(old_term) -> (lines_before, new_term, result_term, result_ty); writes the place, then k(result)."""
-        if self.selfkind != 'mut': self.err('write through `&self`')
+        if not self.threads: self.err('write through `&self`')
+        if any(c['kind'] == 'loop' for c in self.loopctx): self.err('write inside a `loop` with a value')
         if pl[0] == 'selffield':
             pre, new, res, rty = mk(f'self.{lname(pl[1])}')
             return pre + [f'let self := {{ self with {lname(pl[1])} := {new} }}'] + k(res, rty)
+        if pl[0] == 'statecell': self.err('a whole state cell is overwritten')
         if not pl[4]: self.err('write through `.borrow()`')
-        ix, _ = self.px_ty(pl[1], env, 'nat')
-        s = self.fresh('s')
-        pre, new, res, rty = mk(f'{s}.{lname(pl[2])}')
-        body = pre + [f'let self := {{ self with states := self.states.setIfInBounds {ix} {{ {s} with {lname(pl[2])} := {new} }} }}'] + k(res, rty)
-        return self.bind(f'Rs.index self.states {ix}', s, body)
+        def ki(ix, ty):
+            if ty != 'nat': self.err('index of a non-integer kind')
+            s = self.fresh('s')
+            pre, new, res, rty = mk(f'{s}.{lname(pl[2])}')
+            body = pre + [f'let self := {{ self with states := self.states.setIfInBounds {ix} {{ {s} with {lname(pl[2])} := {new} }} }}'] + k(res, rty)
+            return self.bind(f'Rs.index self.states {ix}', s, body)
+        return self.tx(pl[1], env, ki)
 
     # ---------------------------------------------------------------- pure expressions
     def px(self, e, env):
@@ -232,6 +287,22 @@ class Tr:
             def kt(ts):
                 return k('(' + ', '.join(t for t, _ in ts) + ')', ('tuple', [ty for _, ty in ts]))
             return self.tx_list(e[1], env, kt)
+        if h == 'index' and e[1][0] == 'path' and len(e[1][1]) == 1 and e[1][1][0] in env and env[e[1][1][0]][0] in ('val', 'mut'):
+            b = env[e[1][1][0]]
+            ety = self.vec_elem(b)
+            def kx(ix, ty):
+                if ty != 'nat': self.err('index of a non-integer kind')
+                x = self.fresh('x')
+                return self.bind(f'Rs.index {b[1]} {ix}', x, k(x, ety))
+            return self.tx(e[2], env, kx)
+        if h == 'tupfield':
+            def ktf(t, ty):
+                if not (isinstance(ty, tuple) and ty[0] == 'tuple' and e[2] < len(ty[1])): self.err(f'`.{e[2]}` on a value of kind {ty}')
+                n = len(ty[1])
+                proj = t + ''.join(['.2'] * e[2]) + ('.1' if e[2] < n - 1 else '')
+                return k(proj, ty[1][e[2]])
+            return self.tx(e[1], env, ktf)
+        if h == 'loop': return self.tx_vloop(e, env, k)
         if h == 'field' or h == 'index':
             pl = self.as_place(e, env)
             if pl is None: self.err(f'unsupported place expression: {e}')
@@ -340,13 +411,24 @@ class Tr:
         if name == 'EdgeMap::default' and args == []: return k('Rs.EdgeMap.empty', 'edges')
         if name == 'BTreeSet::new' and args == []: return k('Rs.SetL.empty', 'set')
         if name == 'NonZeroU32::new' and len(args) == 1:
-            t, _ = self.px_ty(args[0], env, 'nat')
-            return k(f'(Rs.nonZeroU32New {t})', ('opt', 'nat'))
+            def kn(t, ty):
+                if ty != 'nat': self.err('NonZeroU32::new of a non-integer')
+                return k(f'(Rs.nonZeroU32New {t})', ('opt', 'nat'))
+            return self.tx(args[0], env, kn)
         if name == 'u32::try_from' and len(args) == 1:
             def kt(t, ty):
                 if ty != 'nat': self.err('u32::try_from of a non-integer')
                 return k(f'(Rs.u32TryFrom {t})', ('tryres', 'nat'))
             return self.tx(args[0], env, kt)
+        if name == 'Vec::with_capacity' and len(args) == 1:
+            t, _ = self.px_ty(args[0], env, 'nat')
+            return k(f'(Rs.vecWithCapacity {t})', ('vec', None))
+        if name == 'Output::new' and len(args) == 3:
+            self.u.check_output_new()
+            def ko(ts):
+                if [ty for _, ty in ts] != ['V', 'nat', ('opt', 'nat')]: self.err(f'Output::new of {[ty for _, ty in ts]}')
+                return k(f'({{ value := {ts[0][0]}, length := {ts[1][0]}, parent := {ts[2][0]} }} : Rs.Output V)', 'output')
+            return self.tx_list(args, env, ko)
         if len(p) == 2 and p[0] == 'DaachorseError':
             if p[1] not in ERR_CTORS: self.err(f'unknown error constructor `{name}`')
             return k(ERR_CTORS[p[1]], 'err')       # arguments (names, bounds, format! payloads) are dropped
@@ -398,6 +480,21 @@ class Tr:
                 def mk(old):
                     return [], f'{old}.push {x}', '()', 'unit'
                 return self.place_update(pl, env, mk, k)
+            if m == 'push' and isinstance(tag, tuple) and tag[0] == 'vec' and len(args) == 1:
+                def kp(x, xty):
+                    if xty != tag[1]: self.err(f'push of {xty} into {tag}')
+                    def mk(old):
+                        return [], f'{old}.push {x}', '()', 'unit'
+                    return self.place_update(pl, env, mk, k)
+                return self.tx(args[0], env, kp)
+        if m == 'push' and len(args) == 1 and recv[0] == 'path' and len(recv[1]) == 1 and recv[1][0] in env and env[recv[1][0]][0] == 'mut':
+            b = env[recv[1][0]]
+            if not (isinstance(b[2], tuple) and b[2][0] == 'vec'): self.err(f'push on a variable of kind {b[2]}')
+            def kp(x, xty):
+                ety = b[2][1] if b[2][1] is not None else self.refine.setdefault(b[1], xty)
+                if xty != ety: self.err(f'push of {xty} into a vector of {ety}')
+                return [f'let {b[1]} := {b[1]}.push {x}'] + k('()', 'unit')
+            return self.tx(args[0], env, kp)
         # --- `self.match_kind.is_leftmost_first()`
         if m == 'is_leftmost_first' and args == []:
             def kk(t, ty):
@@ -407,6 +504,12 @@ class Tr:
         # --- std methods on values
         def kr(t, ty):
             if m == 'len' and args == [] and ty == 'states': return k(f'{t}.size', 'nat')
+            if m == 'len' and args == [] and isinstance(ty, tuple) and ty[0] == 'vec': return k(f'{t}.size', 'nat')
+            if m == 'values' and args == [] and ty == 'edges': return k(f'(Rs.EdgeMap.values {t})', 'listnat')
+            if m == 'get' and args == [] and ty == 'nat': return k(t, 'nat')        # NonZeroU32::get
+            if m == 'unwrap' and args == [] and isinstance(ty, tuple) and ty[0] == 'tryres':
+                v = self.fresh('v')
+                return [f'match {t} with', f'| some {v} =>'] + ind(k(v, ty[1])) + ['| none =>', '  .error (.panic "unwrap")']
             if m == 'iter' and args == [] and ty == 'listnat': return k(t, 'iter')
             if m == 'to_vec' and args == [] and ty == 'listnat': return k(t, 'listnat')
             if m == 'fold' and len(args) == 2 and ty == 'iter':
@@ -461,6 +564,24 @@ class Tr:
             return [f'match {t} with', f'| some {lname(x)} =>'] + ind(a) + ['| none =>'] + ind(b)
         return self.tx(scrut, env, ks)
 
+    def tx_if_join(self, x, env, cont):
+        """`if` statement that falls through on every path and is followed by more code: its branches
+        return the variables they change, the code that follows is emitted once."""
+        assigned = assigned_in(x)
+        wself = writes_self(x)
+        if wself and not self.threads: self.err('write through `&self`')
+        var = ([('self', None)] if wself else []) + [(b[1], b[2]) for n, b in env.items() if b[0] == 'mut' and n in assigned]
+        for n in assigned:
+            if n not in env or env[n][0] != 'mut': self.err(f'assignment to `{n}` in an `if`')
+        vs = [v for v, _ in var]
+        def kj(t, ty):
+            if ty != 'unit': self.err('`if` statement with a value')
+            return ['.ok ' + (tup(vs) if vs else '()')]
+        lines = self.tx_if(x, env, kj)
+        rty = ' × '.join(self.lean_ty2(v, t) for v, t in var) if var else 'Unit'
+        head = [f'match (show Except BuildErr ({rty}) from'] + ind(lines) + [') with']
+        return head + ['| .error e => .error e', f'| .ok {tup(vs) if vs else "_"} =>'] + ind(cont(env))
+
     def tx_block(self, blk, env, k):
         if blk[0] != 'block': self.err('expected a block')
         return self.tx_stmts(blk[1], blk[2], env, k)
@@ -469,6 +590,8 @@ class Tr:
         if not stmts:
             if tail is None: return k('()', 'unit')
             if tail[0] == 'return': return self.tx_return(tail[1], env)
+            if tail[0] in ('for', 'while', 'breakv'):      # a statement in tail position
+                return self.tx_stmts([('expr', tail)], None, env, k)
             return self.tx(tail, env, k)
         st, rest = stmts[0], stmts[1:]
         cont = lambda env2: self.tx_stmts(rest, tail, env2, k)
@@ -479,7 +602,7 @@ class Tr:
             if ty is not None: self.err('`let` with a type annotation')
             x = pat[1]
             if init[0] == 'un' and init[1] == '&':
-                pl = self.as_place(init[2], env)
+                pl = self.as_place(init[2], env) or self.as_cell(init[2])
                 if pl is not None:
                     if mut: self.err('`let mut` of a reference')
                     env2 = dict(env); env2[x] = ('alias', pl)
@@ -492,25 +615,48 @@ class Tr:
             return self.tx(init, env, kl)
         if h == 'assign':
             _, lhs, op, rhs = st
-            if lhs[0] == 'path' and len(lhs[1]) == 1 and lhs[1][0] in env and env[lhs[1][0]][0] == 'mut' and op == '=':
+            if lhs[0] == 'path' and len(lhs[1]) == 1 and lhs[1][0] in env and env[lhs[1][0]][0] == 'mut' and op in ('=', '+='):
                 b = env[lhs[1][0]]
                 def ka(t, ty):
                     if ty != b[2]: self.err(f'assignment of {ty} to a variable of kind {b[2]}')
+                    if op == '+=':
+                        if ty != 'nat': self.err('`+=` on a non-integer')
+                        return [f'let {b[1]} := ({b[1]} + {t})'] + cont(env)
                     return [f'let {b[1]} := {t}'] + cont(env)
                 return self.tx(rhs, env, ka)
             pl = self.as_place(lhs, env)
-            if pl is not None and op in ('=', '+='):
+            if pl is not None and pl[0] != 'statecell' and op in ('=', '+='):
                 tag = pl[2] if pl[0] == 'selffield' else pl[3]
-                t, ty = self.px(rhs, env)
-                if ty != tag or (op == '+=' and ty != 'nat'): self.err(f'assignment `{op}` of {ty} to a place of kind {tag}')
-                def mk(old):
-                    return [], (t if op == '=' else f'({old} + {t})'), '()', 'unit'
-                return self.place_update(pl, env, mk, lambda _t, _ty: cont(env))
+                def kr(t, ty):
+                    if not compatible(ty, tag) or (op == '+=' and ty != 'nat'): self.err(f'assignment `{op}` of {ty} to a place of kind {tag}')
+                    def mk(old):
+                        return [], (t if op == '=' else f'({old} + {t})'), '()', 'unit'
+                    return self.place_update(pl, env, mk, lambda _t, _ty: cont(env))
+                return self.tx(rhs, env, kr)
             self.err(f'unsupported assignment: {lhs} {op}')
         if h == 'expr':
             x = st[1]
             if x[0] == 'return': return self.tx_return(x[1], env)
+            if x[0] == 'for' and not has_form(x[3], 'return'): return self.tx_rloop('for', x, env, cont)
             if x[0] == 'for': return self.tx_for(x, env, cont)
+            if x[0] == 'while': return self.tx_rloop('while', x, env, cont)
+            if x[0] == 'breakv':
+                if not self.loopctx or self.loopctx[-1]['kind'] != 'loop': self.err('`break <value>` outside a `loop`')
+                ctx = self.loopctx[-1]
+                def kb(t, ty):
+                    if ctx['ty'] is None: ctx['ty'] = ty
+                    if ctx['ty'] != ty: self.err(f'`break` values of kinds {ctx["ty"]} and {ty}')
+                    return ['.ok ' + tup([t] + [v for v, _ in ctx['var']])]
+                return self.tx(x[1], env, kb)
+            if x[0] == 'assert':
+                if not x[2].startswith('debug_assert'): self.err(f'unsupported assertion `{x[2]}`')
+                def kas(t, ty):
+                    if ty != 'bool': self.err('assertion on a non-bool')
+                    return [f'if {t} then'] + ind(cont(env)) + ['else', '  .error (.panic "debug_assert")']
+                return self.tx(x[1], env, kas)
+            if x[0] in ('if', 'iflet') and (rest or tail is not None) and self.fallible and \
+                    not any(has_form(x, f) for f in ('return', 'break', 'breakv', 'continue')):
+                return self.tx_if_join(x, env, cont)
             if x[0] in ('if', 'iflet'):
                 def ki(t, ty):
                     if ty != 'unit': self.err('`if` statement with a value')
@@ -562,6 +708,135 @@ class Tr:
         self.loops.append(d)
         return [' '.join([name] + ([args] if args else []) + [lt] + [v for v, _ in var])]
 
+    # ---------------------------------------------------------------- loops in returning mode
+    def vec_elem(self, b):
+        if not (isinstance(b[2], tuple) and b[2][0] == 'vec'): self.err(f'index of a variable of kind {b[2]}')
+        ety = b[2][1] if b[2][1] is not None else self.refine.get(b[1])
+        if ety is None: self.err(f'element kind of `{b[1]}` is not known')
+        return ety
+
+    def lean_ty2(self, name, tag):
+        if tag is None: return f'{self.struct} V'
+        if isinstance(tag, tuple) and tag[0] == 'vec':
+            ety = tag[1] if tag[1] is not None else self.refine.get(name)
+            if ety == 'nat': return 'Array Nat'
+            self.err(f'loop over a live vector `{name}` of unknown / unsupported element kind {ety}')
+        return self.lean_ty(tag)
+
+    def loop_frame(self, e, body, env):
+        """(fixed, var): the live variables a loop function takes; `var` are those it may change."""
+        used = names_in(body) | (names_in(e[1]) if e[0] == 'while' else set())
+        for n in list(used):
+            if n in env and env[n][0] == 'alias':
+                used |= names_in(env[n][1][1])
+                for m in names_in(env[n][1][1]):
+                    if m in env and env[m][0] != 'val' and m not in self.u.consts:
+                        self.err(f'reference `{n}` alive across a loop depends on the mutable variable `{m}`')
+        assigned = assigned_in(body)
+        for n in assigned:
+            if n not in env or env[n][0] != 'mut':
+                if n in env: self.err(f'assignment to the immutable / aliased variable `{n}` in a loop')
+        wself = writes_self(body)
+        if wself and not self.threads: self.err('write through `&self`')
+        uses_self = 'self' in used
+        var = ([('self', None)] if wself else []) + [(b[1], b[2]) for n, b in env.items() if b[0] == 'mut' and n in assigned]
+        fixed = ([('self', None)] if (uses_self and not wself) else []) + \
+                [(b[1], b[2]) for n, b in env.items() if b[0] in ('val', 'mut') and n in used and n not in assigned]
+        return fixed, var
+
+    FUEL = '(self.states.size + 1)'
+
+    def tx_rloop(self, kind, e, env, cont):
+        """`for` / `while` without `return`: the loop function returns the variables it changes."""
+        if not self.fallible: self.err('loop in an infallible function')
+        body = e[-1]
+        name = f'{self.lean_name}.loop{self.nloops}'; self.nloops += 1
+        fixed, var = self.loop_frame(e, body, env)
+        env_in = dict(env)
+        if kind == 'for':
+            pat, it = e[1], e[2]
+            if pat[0] == 'pref' and pat[1][0] == 'pid':
+                binder, ity = lname(pat[1][1]), 'List Nat'
+                env_in[pat[1][1]] = ('val', binder, 'nat')
+                want = ('listnat', ('vec', 'nat'))
+            elif pat[0] == 'ptuple' and len(pat[1]) == 2 and all(q[0] == 'pref' and q[1][0] == 'pid' for q in pat[1]):
+                a, b = pat[1][0][1][1], pat[1][1][1][1]
+                binder, ity = f'({lname(a)}, {lname(b)})', 'List (Nat × Nat)'
+                env_in[a] = ('val', lname(a), 'nat'); env_in[b] = ('val', lname(b), 'nat')
+                want = ('edges',)
+            else:
+                self.err(f'unsupported `for` pattern {pat}')
+            stepper, first, exhausted = 'rest', f'{binder} :: rest', '[]'
+        else:
+            cond = e[1]
+            stepper, first, exhausted, ity = 'fuel', 'fuel + 1', '0', 'Nat'
+        self.loopctx.append(dict(kind=kind))
+        fx = ' '.join(v for v, _ in fixed)
+        vs = [v for v, _ in var]
+        rec = [' '.join([name] + ([fx] if fx else []) + [stepper] + vs)]
+        done = ['.ok ' + tup(vs)]
+        def kbody(t, ty):
+            if ty != 'unit': self.err('loop body with a value')
+            return rec
+        if kind == 'for':
+            step_lines = self.tx_block(body, env_in, kbody)
+            nil_lines = done
+        else:
+            def kc(t, ty):
+                if ty != 'bool': self.err('`while` on a non-bool')
+                return [f'if {t} then'] + ind(self.tx_block(body, env_in, kbody)) + ['else'] + ind(done)
+            step_lines = self.tx(cond, env_in, kc)
+            nil_lines = ['.error (.panic "fuel")']
+        self.loopctx.pop()
+        if any('(nb ' in l for l in step_lines): self.err('`num_bytes` inside a loop in returning mode')
+        sig = ''.join(f' ({v} : {self.lean_ty2(v, t)})' for v, t in fixed)
+        vtys = [self.lean_ty2(v, t) for v, t in var]
+        rty = ' × '.join(vtys) if vtys else 'Unit'
+        vpat = ''.join(', ' + v for v in vs)
+        tyV = ' {V : Type}' if re.search(r'\bV\b', sig + ' '.join(vtys)) else ''
+        d = [f'def {name}{tyV}{sig} : {ity}' + ''.join(' → ' + t for t in vtys) + f' → Except BuildErr ({rty})',
+             f'  | {exhausted}{vpat} =>'] + ind(nil_lines, 6) + [f'  | {first}{vpat} =>'] + ind(step_lines, 6)
+        self.loops.append(d)
+        def call(src):
+            return self.bind(' '.join([name] + ([fx] if fx else []) + [src] + vs), tup(vs) if vs else '_', cont(env))
+        if kind == 'while': return call(self.FUEL)
+        def ksrc(t, ty):
+            if ty not in want: self.err(f'`for` with pattern {pat} over a value of kind {ty}')
+            return call(f'{t}.toList' if ty == ('vec', 'nat') else t)
+        return self.tx(e[2], env, ksrc)
+
+    def tx_vloop(self, e, env, k):
+        """`loop { .. break v; .. }` as an expression: the loop function takes fuel and returns the break
+        value next to the variables it changes; it must not write `self`."""
+        if not self.fallible: self.err('loop in an infallible function')
+        body = e[1]
+        for form in ('return', 'break', 'continue', 'for', 'while', 'loop', 'whilelet'):
+            if has_form(body, form): self.err(f'`{form}` inside a `loop` with a value')
+        name = f'{self.lean_name}.loop{self.nloops}'; self.nloops += 1
+        fixed, var = self.loop_frame(e, body, env)
+        if any(v == 'self' for v, _ in var): self.err('write inside a `loop` with a value')
+        ctx = dict(kind='loop', ty=None, var=var)
+        self.loopctx.append(ctx)
+        fx = ' '.join(v for v, _ in fixed)
+        vs = [v for v, _ in var]
+        def kbody(t, ty):
+            if ty != 'unit': self.err('loop body with a value')
+            return [' '.join([name] + ([fx] if fx else []) + ['fuel'] + vs)]
+        step_lines = self.tx_block(body, env, kbody)
+        self.loopctx.pop()
+        if ctx['ty'] is None: self.err('`loop` without `break <value>`')
+        if any('(nb ' in l for l in step_lines): self.err('`num_bytes` inside a loop in returning mode')
+        sig = ''.join(f' ({v} : {self.lean_ty2(v, t)})' for v, t in fixed)
+        vtys = [self.lean_ty2(v, t) for v, t in var]
+        rty = ' × '.join([self.lean_ty2('', ctx['ty'])] + vtys)
+        vpat = ''.join(', ' + v for v in vs)
+        tyV = ' {V : Type}' if re.search(r'\bV\b', sig + ' '.join(vtys) + rty) else ''
+        d = [f'def {name}{tyV}{sig} : Nat' + ''.join(' → ' + t for t in vtys) + f' → Except BuildErr ({rty})',
+             f'  | 0{vpat} =>', '      .error (.panic "fuel")', f'  | fuel + 1{vpat} =>'] + ind(step_lines, 6)
+        self.loops.append(d)
+        v = self.fresh('v')
+        return self.bind(' '.join([name] + ([fx] if fx else []) + [self.FUEL] + vs), tup([v] + vs), k(v, ctx['ty']))
+
     # ---------------------------------------------------------------- whole function
     def run(self):
         f = self.f
@@ -588,6 +863,37 @@ class Tr:
         out += [f'/-- `{f["target"]}::{f["name"]}` ({SRC}) -/', f'{head.rstrip()} : {self.ret_type()} :='] + ind(lines)
         return '\n'.join(out) + '\n'
 
+
+def tup(xs):
+    return xs[0] if len(xs) == 1 else '(' + ', '.join(xs) + ')'
+
+def walk_ast(e):
+    if isinstance(e, (tuple, list)):
+        yield e
+        for x in e:
+            yield from walk_ast(x)
+
+def names_in(e):
+    return {x[1][0] for x in walk_ast(e) if isinstance(x, tuple) and len(x) == 2 and x[0] == 'path' and isinstance(x[1], list) and len(x[1]) == 1}
+
+def assigned_in(e):
+    out = set()
+    for x in walk_ast(e):
+        if isinstance(x, tuple) and x and x[0] == 'assign' and x[1][0] == 'path' and len(x[1][1]) == 1: out.add(x[1][1][0])
+        if isinstance(x, tuple) and len(x) == 4 and x[0] == 'mcall' and x[2] == 'push' and x[1][0] == 'path' and len(x[1][1]) == 1: out.add(x[1][1][0])
+    return out
+
+def writes_self(e):
+    """over-approximation: a `borrow_mut`, an assignment to a non-variable, or a mutator call on a non-variable"""
+    for x in walk_ast(e):
+        if not (isinstance(x, tuple) and x): continue
+        if x[0] == 'mcall' and len(x) == 4 and x[2] == 'borrow_mut': return True
+        if x[0] == 'assign' and not (x[1][0] == 'path' and len(x[1][1]) == 1): return True
+        if x[0] == 'mcall' and len(x) == 4 and x[2] in ('push', 'insert', 'replace') and not (x[1][0] == 'path' and len(x[1][1]) == 1): return True
+    return False
+
+def has_form(e, form):
+    return any(isinstance(x, tuple) and x and x[0] == form for x in walk_ast(e))
 
 def compatible(ty, want):
     if ty == want: return True
@@ -632,8 +938,23 @@ class Unit:
         kinds = dict(re.findall(r'\("(\w+)", (\d+)\)', re.search(r'def kindBytes.*', consts_lean).group(0)))
         if b[2][3][1][1] not in kinds: raise TErr('src/lib.rs: unknown MatchKind variant in is_leftmost_first')
         self.leftmost_first_byte = kinds[b[2][3][1][1]]
-        self.fallible = {'child_id', 'is_registered', 'add'}
+        self.fallible = {'child_id', 'is_registered', 'add', 'build_fails', 'build_fails_leftmost', 'build_outputs'}
+        self.repo = repo
         self.sigs, self.done = {}, {}
+
+    def check_output_new(self):
+        """`Output::new(value, length, parent)` of src/lib.rs must be the plain constructor of the three fields."""
+        if getattr(self, '_out_ok', False): return
+        lsrc = open(os.path.join(self.repo, 'src/lib.rs')).read()
+        lstructs, lfns = parse_items(lsrc, 'src/lib.rs')
+        f = lfns.get(('Output', 'new'))
+        if f is None or 'Output' not in lstructs: raise TErr('src/lib.rs: Output::new not found')
+        if list(lstructs['Output'].keys()) != ['value', 'length', 'parent']: raise TErr('src/lib.rs: fields of Output changed')
+        b = PN(f['body_toks'], f['where']).block()
+        want = ('struct', ['Self'], [(n, ('path', [n])) for n in ('value', 'length', 'parent')])
+        if [p[0] for p in f['params']] != ['value', 'length', 'parent'] or b != ('block', [], want):
+            raise TErr('src/lib.rs: Output::new is not the plain constructor')
+        self._out_ok = True
 
     def field_tag(self, struct, field):
         if field not in self.structs[struct]: raise TErr(f'{SRC}: {struct} has no field `{field}`')
@@ -682,7 +1003,7 @@ def main():
     text += u.gen_struct('NfaBuilderState') + '\n'
     text += u.gen_fn('NfaBuilderState', 'default') + '\n'
     text += u.gen_struct('NfaBuilder') + '\n'
-    for fn in ('new', 'child_id', 'is_registered', 'add'):
+    for fn in ('new', 'child_id', 'is_registered', 'add', 'build_fails', 'build_fails_leftmost', 'build_outputs'):
         text += u.gen_fn('NfaBuilder', fn) + '\n'
     text += 'end Daac.Gen.N\n'
     path = os.path.join(outdir, 'Nfa.lean')
@@ -691,9 +1012,13 @@ def main():
             fh.write(text)
     import hashlib, json, re
     defs = {}
-    for chunk in re.split(r'\n(?=/-- )', text):
-        m = re.search(r'^(?:def|structure) (\S+)', chunk, re.M)
-        if m: defs['N.' + m.group(1)] = hashlib.sha1(chunk.encode()).hexdigest()[:16]
+    # one hash per translated item; the loop functions `F.loopN` are accounted to `F`
+    acc = {}
+    for block in text.split('\n\n'):
+        m = re.search(r'^(?:def|structure) (\S+)', block, re.M)
+        if m: acc.setdefault(re.sub(r'\.loop\d+$', '', m.group(1)), []).append(block)
+    for name, blocks in acc.items():
+        defs['N.' + name] = hashlib.sha1('\n\n'.join(blocks).encode()).hexdigest()[:16]
     jtext = json.dumps(defs, indent=1, sort_keys=True) + '\n'
     jpath = os.path.join(outdir, 'nfa_defs.json')
     if not os.path.exists(jpath) or open(jpath).read() != jtext:
